@@ -179,3 +179,43 @@ Definition de_choice_case_ok (c: de_choice_case) : bool :=
 Definition nd_case := (fmt * option tri * tri * tri * bool)%type.
 Definition nd_case_ok (c: nd_case) : bool :=
   let '(f, D, cfgd, cfg, e) := c in Bool.eqb (nd_in_force f D cfgd cfg) e.
+
+(* ------------------------------------------------------------------ *)
+(* the remaining option: no_copy_collections at the default-dialect level (pack side)                  *)
+(* collections are numbered as in K13C: list = 1, dict = 2; None = the dialect leaves the option unset  *)
+(* ------------------------------------------------------------------ *)
+Definition coll_ids (v: option kv) : option (list nat) :=
+  match v with
+  | Some (KTuple l) => Some (map (fun x => match x with KObj n => n | _ => 0%nat end) l)
+  | _ => None end.
+
+Definition fmt_nc (f: fmt) : option (list nat) :=
+  match fmt_dialect_name f with
+  | Some (Some n) => match assoc format_dialect_options n with Some a => coll_ids (assoc a "no_copy_collections") | None => None end
+  | _ => None end.
+
+Lemma fmt_nc_table : map fmt_nc all_fmts = [None; None; None; Some [1; 2]; Some [1; 2]; Some [1; 2]]%nat.
+Proof. vm_compute. reflexivity. Qed.
+
+(* what get_dialect_or_config_option("no_copy_collections", ()) yields for a codec whose shape class has no Config
+   value for it (Config has no such option): the user's if set, else the format's, else () *)
+Definition codec_nc (f: fmt) (D: option (option (list nat))) : list nat :=
+  let usr := match D with Some (Some l) => Some l | _ => None end in
+  match usr with
+  | Some l => l
+  | None => match fmt_nc f with Some l => l | None => [] end
+  end.
+
+Theorem codec_nc_user_wins f l : codec_nc f (Some (Some l)) = l.
+Proof. reflexivity. Qed.
+
+Theorem codec_nc_format_default f D :
+  (match D with Some (Some _) => False | _ => True end) ->
+  codec_nc f D = match fmt_nc f with Some l => l | None => [] end.
+Proof. destruct D as [[l|]|]; intros H; try contradiction; reflexivity. Qed.
+
+Definition nc_case := (fmt * option (option (list nat)) * list nat)%type.
+Definition nc_case_ok (c: nc_case) : bool :=
+  let '(f, D, e) := c in
+  (fix eqb (a b: list nat) := match a, b with [], [] => true | x :: r, y :: s => Nat.eqb x y && eqb r s | _, _ => false end)
+    (codec_nc f D) e.
